@@ -376,6 +376,8 @@ fn g1rep() -> impl Strategy<Value = G1Rep> {
     let lam = prop_oneof![
         3 => Just(gen::hex32(&BigUint::one())),
         1 => Just(gen::hex32(&BigUint::from(2u32))),
+        // Montgomery limbs equal to the plain integers 1, 2 (field elements R^-1, 2R^-1)
+        1 => (1u32..3).prop_map(|k| gen::hex32(&((BigUint::from(k) * rinv()) % r9::p_static()))),
         4 => prop::array::uniform32(any::<u8>()).prop_map(move |a| gen::hex32(&(from_be(&a) % (&p - 1u32) + 1u32))),
         1 => Just(gen::hex32(&BigUint::zero())),
     ];
@@ -548,6 +550,7 @@ fn g2rep() -> impl Strategy<Value = G2Rep> {
     let lam = prop_oneof![
         3 => Just((gen::hex32(&BigUint::one()), gen::hex32(&BigUint::zero()))),
         1 => Just((gen::hex32(&BigUint::zero()), gen::hex32(&BigUint::one()))),
+        1 => (1u32..3).prop_map(|k| (gen::hex32(&((BigUint::from(k) * rinv()) % r9::p_static())), gen::hex32(&BigUint::zero()))),
         4 => (prop::array::uniform32(any::<u8>()), prop::array::uniform32(any::<u8>())).prop_map(move |(a, b)| (gen::hex32(&(from_be(&a) % (&p - 1u32) + 1u32)), gen::hex32(&(from_be(&b) % &p2)))),
         1 => Just((gen::hex32(&BigUint::zero()), gen::hex32(&BigUint::zero()))),
     ];
